@@ -145,6 +145,9 @@ impl Table {
                 )?;
             }
         }
+        // Flush explicitly, so that an error is reported rather than being
+        // swallowed when the writer is dropped.
+        writer.flush()?;
         Ok(())
     }
 }
